@@ -8,6 +8,8 @@ package main
 //   * isShadowedKnowsWhile: isShadowed has two parameters (false) or a third one fed from whileHeadVisitor (true);
 //   * endsInIfOptimizesLoops: the ForStmt case of endsInIf is `return endsInIf(stmt.Body)` (false) or first assigns
 //     `stmt.Body.List = optimizeStmtList(stmt.Body.List, iterationBlock)` (true);
+//   * emptyDeclBodyWritesSemicolon: minifyBlockAsStmt writes `;` for a body that is a single var declaration without
+//     items (it calls onlyStmt) or not;
 //   * catchKeepsAssignedByVar: the condition under which minifyStmt drops a catch binding is
 //     {ok, v.Uses == 1, m.o.minVersion(2019)} (false) or additionally !assignedByVar(stmt.Catch, v.Data) (true).
 // Any other shape is an error: the model does not know what the code checks.
@@ -180,6 +182,17 @@ func init() {
 		if !foundFor {
 			return "", fmt.Errorf("endsInIf: no ForStmt case")
 		}
+		// 5. minifyBlockAsStmt
+		bf, err := r.FindFunc("js", "*jsMinifier", "minifyBlockAsStmt")
+		if err != nil {
+			return "", err
+		}
+		emptyBody := strings.Contains(c01dBodyText(bf), "onlyStmt(blockStmt)")
+		if emptyBody {
+			if _, err := r.FindFunc("js", "", "onlyStmt"); err != nil {
+				return "", err
+			}
+		}
 		b := func(x bool) string {
 			if x {
 				return "true"
@@ -195,6 +208,8 @@ func init() {
 			"def isShadowedKnowsWhile : Bool := " + b(while) + "\n\n" +
 			"/-- a catch binding is kept when a `var` of the catch block initialises its name -/\n" +
 			"def catchKeepsAssignedByVar : Bool := " + b(assigned) + "\n\n" +
+			"/-- `minifyBlockAsStmt` writes `;` for a body that is one `var` declaration without items -/\n" +
+			"def emptyDeclBodyWritesSemicolon : Bool := " + b(emptyBody) + "\n\n" +
 			"/-- `endsInIf` optimizes the body of a loop before it looks at its last statement -/\n" +
 			"def endsInIfOptimizesLoops : Bool := " + b(loops) + "\n\n" +
 			"end Verif.Gen.JsHoistFacts\n", nil
